@@ -3,6 +3,7 @@
 package nsqlookupd
 
 import (
+	"bufio"
 	"github.com/nsqio/nsq/internal/protocol"
 	"github.com/nsqio/nsq/internal/verifrt"
 )
@@ -59,4 +60,26 @@ func VerifC15_ShortNameRule() {
 	verifrt.Assert(protocol.IsValidChannelName(string(name)) == got, "short-channel-rule-equals-topic-rule")
 	verifrt.Reach("bare-suffix-refused", len(base) == 0 && len(name) > 0 && !got)
 	verifrt.Reach("short-ephemeral-accepted", len(base) > 0 && len(name) > 10 && got)
+}
+
+// A NEGATIVE IDENTIFY size (first size byte >= 0x80) is refused before anything is allocated for
+// it: E_BAD_BODY, nothing registered, and no allocation sized by the 4 wire bytes (read as an
+// unsigned number they would ask for 2-4 GiB).
+func VerifC15_NegativeIdentifySizeAllocatesNothing() {
+	verifrt.Atomic(func() {
+		l := vLookupd()
+		conn := &vConn{remote: "1.2.3.4:5"}
+		verifrt.AllocLimit(1 << 20)
+		size := verifrt.Int32("size")
+		verifrt.Assume(size < 0)
+		wire := []byte{byte(uint32(size) >> 24), byte(uint32(size) >> 16), byte(uint32(size) >> 8), byte(uint32(size)), '{', '}'}
+		c := NewClientV1(conn)
+		r := bufio.NewReaderSize(&vConn{in: wire}, 16)
+		p := &LookupProtocolV1{nsqlookupd: l}
+		_, err := p.Exec(c, r, []string{"IDENTIFY"})
+		code, fatal, _ := vErrCode(err)
+		verifrt.Assert(fatal && code == "E_BAD_BODY", "negative-identify-size-is-E_BAD_BODY")
+		verifrt.Assert(c.peerInfo == nil && len(l.DB.registrationMap) == 0, "negative-identify-size-registers-nothing")
+		verifrt.Reach("negative-size-refused", err != nil)
+	})
 }
